@@ -129,6 +129,17 @@ ADD = {
 for k, v in ADD.items():
     c = CHECKS[k]
     CHECKS[k] = (c[0], c[1], c[2] + v, c[3], c[4])
+# additions of the fifth session
+ADD5 = {
+ "C01": " from_path: the path-taking entry points (start_file_from_path / add_directory_from_path: only Normal components, joined by '/') and set_comment(String) against a model of their documentation; is_dir()/is_file() follow the name.",
+ "C05": " A stack overflow (inputs rich in record signatures run on a 1 MiB-stack thread) is diagnosed like any other abort: the fatal-signal dump runs on the alternate signal stack.",
+ "C11": " Injected failures carry different io::ErrorKinds: Other (one-shot and sticky), UnexpectedEof (one-shot and sticky) and Interrupted (one-shot; std's retry loops swallow it, the result must then be the failure-free one).",
+ "C18": " Offsets are also applied at the very ends of the time crate's range (years -9999, 0, 1, 9999), where the UTC reading may not be representable: still no panic.",
+ "C20": " Scripts also open entries raw and with the right / a wrong / an empty password (plain and ZipCrypto entries), and query the accessors of an open entry again after other handles have acted (e.g. a refused open of the same entry on a sibling).",
+}
+for k, v in ADD5.items():
+    c = CHECKS[k]
+    CHECKS[k] = (c[0], c[1], c[2] + v, c[3], c[4])
 PENDING = {}
 props = [json.loads(l) for l in open(os.path.join(ROOT, "properties.jsonl"))]
 checks = []
